@@ -56,6 +56,7 @@ def _gen_one(args):
                           triv))
         info.update(status="under contract", paths=fc.npaths, exits=fc.exits,
                     source_hash=fc.source_hash,
+                    has_ensures=bool(fc.ensures) and not fc.generator,
                     assumptions=sorted(eng.used_assumptions),
                     inconsistent=eng.inconsistent[:10],
                     gen_s=round(time.time() - t0, 2))
@@ -66,8 +67,12 @@ def _gen_one(args):
         info["status"] = f"UNDECIDED: {e}"
         info["undecided"] = str(e)
     except Exception:  # noqa: BLE001
-        info["status"] = "ERROR"
-        info["error"] = traceback.format_exc()[-2000:]
+        # an internal error of the generator on this source is an engine
+        # limit, never a verdict
+        tb = traceback.format_exc()
+        info["status"] = "UNDECIDED: engine internal error"
+        info["undecided"] = "engine internal error: " + tb.strip().splitlines()[-1][:200]
+        info["error"] = tb[-2000:]
     return info, obs
 
 
